@@ -8,8 +8,8 @@ package cachesim
 import (
 	"context"
 	"fmt"
-	"log/slog"
 	"hash/fnv"
+	"log/slog"
 	"net"
 	"net/netip"
 	"sort"
@@ -20,10 +20,10 @@ import (
 	"github.com/AdguardTeam/AdGuardDNS/internal/agd"
 	"github.com/AdguardTeam/AdGuardDNS/internal/agdtest"
 	"github.com/AdguardTeam/AdGuardDNS/internal/dnsmsg"
-	"github.com/AdguardTeam/AdGuardDNS/internal/ecscache"
 	"github.com/AdguardTeam/AdGuardDNS/internal/dnsserver"
 	"github.com/AdguardTeam/AdGuardDNS/internal/dnsserver/cache"
 	"github.com/AdguardTeam/AdGuardDNS/internal/dnssvc"
+	"github.com/AdguardTeam/AdGuardDNS/internal/ecscache"
 	"github.com/AdguardTeam/AdGuardDNS/internal/geoip"
 	"github.com/AdguardTeam/AdGuardDNS/verif/kernel"
 	"github.com/AdguardTeam/AdGuardDNS/verif/world"
@@ -43,11 +43,15 @@ type shape struct {
 }
 
 var shapes = map[string]shape{
-	"ok5.test.":      {kind: "ok", ttls: []uint32{5}},
-	"ok2.test.":      {kind: "ok", ttls: []uint32{2, 30}},
-	"ok300.test.":    {kind: "ok", ttls: []uint32{300, 30}, ad: true},
-	"okmax.test.":    {kind: "ok", ttls: []uint32{1 << 31}},
-	"cn.test.":       {kind: "cname", ttls: []uint32{30, 5}},
+	"ok5.test.":   {kind: "ok", ttls: []uint32{5}},
+	"ok2.test.":   {kind: "ok", ttls: []uint32{2, 30}},
+	"ok300.test.": {kind: "ok", ttls: []uint32{300, 30}, ad: true},
+	"okmax.test.": {kind: "ok", ttls: []uint32{1 << 31}},
+	"cn.test.":    {kind: "cname", ttls: []uint32{30, 5}},
+	// Negative answers behind an alias: a short-lived CNAME in front of an
+	// SOA that would allow a longer life.
+	"cnnd.test.":     {kind: "cname-nodata", ttls: []uint32{5}, soaTTL: 300, soaMin: 60},
+	"cnnx.test.":     {kind: "cname-nx", ttls: []uint32{2}, soaTTL: 30, soaMin: 30},
 	"nd.test.":       {kind: "nodata", soaTTL: 300, soaMin: 10},
 	"ndlow.test.":    {kind: "nodata", soaTTL: 5, soaMin: 300, ad: true},
 	"nosoa.test.":    {kind: "nodata-nosoa"},
@@ -154,8 +158,8 @@ func answer(req *dns.Msg) (resp *dns.Msg) {
 		}
 
 		return &dns.SOA{
-			Hdr:    dns.RR_Header{Name: "test.", Rrtype: dns.TypeSOA, Class: q.Qclass, Ttl: sh.soaTTL},
-			Ns:     "ns.test.", Mbox: "h.test.", Serial: serial, Refresh: 1, Retry: 1, Expire: 1, Minttl: sh.soaMin,
+			Hdr: dns.RR_Header{Name: "test.", Rrtype: dns.TypeSOA, Class: q.Qclass, Ttl: sh.soaTTL},
+			Ns:  "ns.test.", Mbox: "h.test.", Serial: serial, Refresh: 1, Retry: 1, Expire: 1, Minttl: sh.soaMin,
 		}
 	}
 
@@ -199,6 +203,15 @@ func answer(req *dns.Msg) (resp *dns.Msg) {
 		}, mk("target.test.", sh.ttls[1], 1))
 	case "nodata":
 		resp.Ns = append(resp.Ns, soa())
+	case "cname-nodata", "cname-nx":
+		resp.Answer = append(resp.Answer, &dns.CNAME{
+			Hdr:    dns.RR_Header{Name: q.Name, Rrtype: dns.TypeCNAME, Class: q.Qclass, Ttl: sh.ttls[0]},
+			Target: "gone.test.",
+		})
+		resp.Ns = append(resp.Ns, soa())
+		if kind == "cname-nx" {
+			resp.Rcode = dns.RcodeNameError
+		}
 	case "nodata-nosoa":
 	case "nx":
 		resp.Rcode = dns.RcodeNameError
@@ -528,10 +541,10 @@ func (st *ecsStack) lastCall() upCall { return st.up.calls[len(st.up.calls)-1] }
 // it (which forces the AD bit of every request): deviations the full stack
 // masks are visible here.
 type mwStack struct {
-	up       *upstream
-	h        dnsserver.Handler
-	cm       *world.CacheManager
-	twn      *mwStack
+	up  *upstream
+	h   dnsserver.Handler
+	cm  *world.CacheManager
+	twn *mwStack
 }
 
 func newMW(minTTL time.Duration, override bool, count int) (st *mwStack) {
